@@ -11,6 +11,20 @@ COMMON_NOTE = ("Trusted: Coq 8.16.1 kernel incl. vm_compute (no native_compute, 
                "coq/Gen regenerated from the source and the running interpreter by harness/extract.py. ")
 
 CHECKS = {
+    "C16": dict(
+        text="Theorems (Props/C16.v, 14, all Closed under the global context): for every pattern list that converts, the "
+             "expression assembled by globs_to_re (as the code builds it, DOTALL, used with fullmatch) matches a name iff "
+             "some pattern glob-matches the WHOLE name ('*' any run incl. '/', '?' one char, backslash escapes * ? \\); a "
+             "list converts iff every pattern is well-formed, otherwise exactly MachineReadableFormatError; "
+             "find_files_paragraph = index of the LAST matching Files paragraph or None; the files_pattern cache is "
+             "transparent over ANY history of assignments/matches/finds.  Unbounded pattern lists, names and histories "
+             "(induction).  Model compared with FilesParagraph.matches / Copyright.find_files_paragraph on every run; the "
+             "model's regex-fragment semantics is also compared with Python's re on the generated pattern text.",
+        design="§4 C16",
+        note=COMMON_NOTE + "Modelled not verified: the four-constructor regex fragment semantics standing for Python's re on "
+             "the text globs_to_re emits (compared per run), Deb822 field access of FilesParagraph, str.split() of the Files "
+             "value.  Spec (textbook glob matcher) compared per run with an independent matcher in the harness.",
+        technique="Coq proof (induction over patterns/names/histories) + in-Coq differential correspondence"),
     "C18": dict(
         text="Theorems (Props/C18.v, all Closed under the global context): a script in ed syntax with valid addresses is "
              "applied with ed's semantics; for EVERY alignment of any (old,new) the descending script maps old to new "
